@@ -5,6 +5,6 @@ NOT_APPLICABLE = {
     "C08": "pure function of (collection contents, request text): no schedule, clock, fault or interleaving for a simulator to decide (DESIGN.md §6)",
     "C13": "identifiers are pure functions of content; the only nondeterminism is Go map iteration order, which no seam controls (DESIGN.md §6)",
     "C17": "order preservation and round trip of the key encoding are pure functions of value pairs (DESIGN.md §6)",
-    "C09": PENDING,
+    
     "C10": PENDING, "C16": PENDING,
 }
